@@ -47,11 +47,14 @@ POLICIES = {
 }
 FAULT_KINDS = ("send_err", "send_partial", "recv_err", "recv_close", "recv_trunc", "reply_lost", "send_timeout")
 EVENTS = {
-    "cip": ("open", "close", "gen_c", "gen_u", "with_ok", "with_raise", "with_comm"),
+    "cip": ("open", "close", "gen_c", "gen_u", "gen_cu", "with_ok", "with_raise", "with_comm"),
     "logix_noinit": ("open", "close", "read", "write", "gen_c", "gen_u", "with_ok", "with_raise", "with_comm"),
     "logix_upload": ("open", "close", "read", "write", "gen_c", "with_ok", "with_raise", "with_comm"),
     "slc": ("open", "close", "read", "write", "gen_c", "with_ok", "with_raise", "with_comm"),
+    # LogixDriver talking to a Micro800 (recognised by its product name; no backplane hop, no Unconnected Send)
+    "m800": ("open", "close", "read", "write", "gen_c", "with_ok", "with_raise", "with_comm"),
 }
+M800_POLICIES = ("ok", "large08", "nofclose", "busy1", "nofo")
 
 
 def tiny_project():
@@ -81,7 +84,7 @@ class Run:
             st = {"svc6": 6, "svc8": 8}.get(polname)
             dev = enip.IdentityDevice((lambda req, info: (st, [], b"\x01\x02\x03\x04") if req.path[:1] == [("class", 1)] else None) if st else None)
         else:
-            dev = logix.LogixController(tiny_project(), "v32")
+            dev = logix.LogixController(tiny_project(), "m800" if drv == "m800" else "v32")
         self.t = enip.Target(dev, enip.Policy(**POLICIES[polname]), keep_cip=False)
         self.w = net.World(self.t, io_budget=4000, refuse_tcp=(polname == "notcp"))
         self.w.__enter__()
@@ -91,7 +94,7 @@ class Run:
             self.d = pycomm3.SLCDriver("10.0.0.1")
         else:
             self.d = pycomm3.LogixDriver("10.0.0.1", init_tags=(drv == "logix_upload"))
-            if drv == "logix_noinit":
+            if drv in ("logix_noinit", "m800"):
                 # without an upload read/write need definitions: provide the one tag used by the events
                 from pycomm3.cip import DINT
 
@@ -129,11 +132,14 @@ class Run:
             out = call(d.generic_message, service=1, class_code=1, instance=1)
         elif ev == "gen_u":
             out = call(d.generic_message, service=1, class_code=1, instance=1, connected=False, unconnected_send=True)
+        elif ev == "gen_cu":
+            # contradictory keywords: connected (left at its default) and the unconnected-only option together
+            out = call(d.generic_message, service=1, class_code=1, instance=1, unconnected_send=True)
         elif ev == "with_ok":
             def f():
                 with d:
                     self.entered = True
-                    return d.generic_message(service=1, class_code=1, instance=1, connected=False, unconnected_send=(self.drv != "slc"), route_path=(self.drv != "slc"))
+                    return d.generic_message(service=1, class_code=1, instance=1, connected=False, unconnected_send=(self.drv not in ("slc", "m800")), route_path=(self.drv not in ("slc", "m800")))
             out = call(f)
         elif ev == "with_raise":
             def f():
@@ -246,7 +252,7 @@ def probe_ok(drv, pol, hist):
     base = len(r.violations)
     c = call(r.d.close)
     o = call(r.d.open)
-    if r.drv in ("logix_noinit", "logix_upload"):
+    if r.drv in ("logix_noinit", "logix_upload", "m800"):
         q = call(r.d.read, "a_dint")
     elif r.drv == "slc":
         q = call(r.d.read, "N7:0")
@@ -333,7 +339,7 @@ def fmt(hist):
 
 
 def shards(tier, seed):
-    return [("search", drv, pol) for drv in DRIVERS for pol in POLICIES] + [("search", "logix_noinit", "ok", "debuglog"), ("search", "cip", "large08", "debuglog"), ("search", "slc", "nofclose", "debuglog")]
+    return [("search", drv, pol) for drv in DRIVERS for pol in POLICIES] + [("search", "m800", pol) for pol in M800_POLICIES] + [("search", "logix_noinit", "ok", "debuglog"), ("search", "cip", "large08", "debuglog"), ("search", "slc", "nofclose", "debuglog")]
 
 
 def describe(tier, seed):
